@@ -48,7 +48,7 @@ def run(ctx):
         dis = ctx.correspond(lines, orc, "conn.go ReadBatch / batch.go / message_reader.go / reader.go ↔ Model/MessageSetReader.lean, Model/Batch.lean, Model/ReaderLoop.lean",
                              nontrivial=lambda op, impl: " L=-" not in op)
     ctx.coverage["rule"] = (
-        "fetch … chunk=<n>: the response frame reaches the client in pieces of n bytes (54 quick / ~450 thorough; n in 1,2,3,5,16,rand; multi-byte varints; same expected result; then a ReadLastOffset on the same Conn must work after a clean round); the fake is a cluster (broker k at fake:9092+k-1; partition requests on a connection dialled to a non-leader address get NotLeaderForPartition; `move` faults move the leadership to another address); fault `stall<k>`: the frame stops after k bytes and the connection stays open and silent; an error handed to the application fails the monitor; every reader scenario ends with Reader.Close and `all connections the fetch loop opened are over`; oore: ReaderConfig.OffsetOutOfRangeError on/off with a start beyond the log end, through the loop LTS; unkcodec: a v2 batch with compression codec 5-7 (errUnknownCodec branch of the loop: 4 errors, nothing delivered, no connection left behind); reader … faults=i:err1h: OffsetOutOfRange, then the ListOffsets on that connection is never answered (the reader comes back after its 10 s deadline); tok: the driver's real bytes (uncompressed layouts, random cut) through the Lean byte tokenizer and through the byte-level readers (readHeaderB, readRecordV2, readBodyV1); rtrace / ftrace: RL.* / RF.* hook traces of every Reader scenario replayed through the loop LTS / checked against the front model; fetchx: the fetch generator read after the batch's adjusted deadline has passed (58 cases quick / 318 thorough; out must be RequestTimedOut); fetchts: stored timestamp 0 (D21); fetch: logs of 1..6 original batches in format 2 / 1 / 0 / mixed(1 then 2), compaction modes keep-all, random holes, head holes, tail holes, "
+        "fetch … chunk=<n>: the response frame reaches the client in pieces of n bytes (54 quick / ~450 thorough; n in 1,2,3,5,16,rand; multi-byte varints; same expected result; then a ReadLastOffset on the same Conn must work after a clean round); every third v2 data batch carries the transactional attribute bit; fetch v4+ responses report last stable offset = fetch offset < high watermark; the fake is a cluster (broker k at fake:9092+k-1; partition requests on a connection dialled to a non-leader address get NotLeaderForPartition; `move` faults move the leadership to another address); fault `stall<k>`: the frame stops after k bytes and the connection stays open and silent; an error handed to the application fails the monitor; every reader scenario ends with Reader.Close and `all connections the fetch loop opened are over`; oore: ReaderConfig.OffsetOutOfRangeError on/off with a start beyond the log end, through the loop LTS; unkcodec: a v2 batch with compression codec 5-7 (errUnknownCodec branch of the loop: 4 errors, nothing delivered, no connection left behind); reader … faults=i:err1h: OffsetOutOfRange, then the ListOffsets on that connection is never answered (the reader comes back after its 10 s deadline); tok: the driver's real bytes (uncompressed layouts, random cut) through the Lean byte tokenizer and through the byte-level readers (readHeaderB, readRecordV2, readBodyV1); rtrace / ftrace: RL.* / RF.* hook traces of every Reader scenario replayed through the loop LTS / checked against the front model; fetchx: the fetch generator read after the batch's adjusted deadline has passed (58 cases quick / 318 thorough; out must be RequestTimedOut); fetchts: stored timestamp 0 (D21); fetch: logs of 1..6 original batches in format 2 / 1 / 0 / mixed(1 then 2), compaction modes keep-all, random holes, head holes, tail holes, "
         "empty (retained bare header, sometimes dropped), whole-batch gaps, codecs none/gzip/snappy/lz4/zstd (v2) and gzip/snappy/lz4 wrappers (v0/v1; one in three with a key of 0-8 bytes, C05-D31), start offset anywhere "
         "in the log incl. the log end, served from the batch containing it (3/4) or from the log start, cut: none / uniform byte / within the last 70 bytes; fetch v2/v5/v10 round robin; "
         "iter: the same logs served under the fetch contract with 1..3 cycling byte budgets from {1,80,150,300,1000,2^20}+rand; "
